@@ -19,7 +19,9 @@ proof (coq/theories/Trace/VcdProofs.v, stated in Props/C16.v; model in Trace/Vcd
 
 tie, checked on every run (T-acc + T-diff on the REAL .vcd file):
   random small pymtl3 designs (children, nested children, lists of components/ports, interfaces nested 2-3 levels with
-  identically named leaves in sibling bundles, lists of interfaces, interfaces inside lists of components and at top level, Bits of 1..200 bits,
+  identically named leaves in sibling bundles, lists of interfaces, interfaces inside lists of components and at top level; interface attribute names drawn from pools
+  that collide with reserved/structural names (clk, reset, in_, out, top, sibling/parent component and port names, a_0 vs
+  a[0], a__b vs a.b) and all such pins toggle, Bits of 1..200 bits,
   bitstruct ports incl. nested/list/wide (61..67-bit) fields, pure-connection nets spanning several components, constants, slices and
   struct-field connections, never-written wires, counters/toggles; inputs move between values that collide under
   cheap comparisons: equal hash()/mod 2^61-1/2^31-1, equal low 32/64 bits, complements, reversals, rotations,
@@ -246,6 +248,64 @@ def tdecl(T):
 def twidth(T):
   return T[1] if T[0] == 'b' else STRUCTS[T[1]]
 
+# attribute names for interface leaves / sub-bundles / interfaces.  The pools deliberately contain names that collide
+# with reserved or structural names wherever pymtl3 allows them: `clk` / `reset` as ordinary interface pins, names of
+# the enclosing or sibling components and of top-level ports (top, c0, c0_0, in0, out0), the component's own port names
+# (in_, out) one level down, and names that differ only by the VCD mangling of indices / separators (a[0] vs a_0,
+# a.b vs a__b).
+LEAF_POOL = ['clk', 'clk', 'reset', 'reset', 'msg', 'val', 'rdy', 'in_', 'out', 'top', 'a', 'b', 'a_0', 'a__b', 'req',
+             'resp', 'cnt', 'c0_0', 'c0', 'in0', 'out0', 'spi', 'x']
+IFC_POOL = ['spi', 'a', 'a', 'b', 'a_0', 'a__b', 'imem', 'req', 'top', 'c0_0', 'c0', 'c1_0', 'in0', 'out0', 'x', 'clk_',
+            'reset_', 'never0']
+
+def draw(rng, pool, n):
+  out = []
+  while len(out) < n:
+    c = rng.choice(pool)
+    if c not in out: out.append(c)
+  return out
+
+def rand_ifc_names(rng):
+  return {'leaf': draw(rng, LEAF_POOL, 3), 'bundle': draw(rng, LEAF_POOL, 3), 'comp': draw(rng, IFC_POOL, 3)}
+
+def nifc_source(tag, nm):
+  """a component with a nested bundle, a list of nested bundles and a flat interface whose attribute names are drawn;
+  every T-typed leaf is a different delay of in_, every 1-bit leaf follows a different bit (or its inverse) of a free
+  running counter, so all of them toggle and identically named leaves in sibling bundles carry different waveforms"""
+  lf, bd, cp = nm['leaf'], nm['bundle'], nm['comp']
+  L = [f'class NLeaf{tag}( Interface ):', '  def construct( s, T ):',
+       f'    s.{lf[0]} = OutPort( T )', f'    s.{lf[1]} = OutPort( Bits1 )', f'    s.{lf[2]} = OutPort( Bits1 )', '',
+       f'class NBundle{tag}( Interface ):', '  def construct( s, T ):',
+       f'    s.{bd[0]} = NLeaf{tag}( T )', f'    s.{bd[1]} = NLeaf{tag}( T )', f'    s.{bd[2]} = OutPort( Bits1 )', '',
+       f'class NStage{tag}( Component ):', '  def construct( s, T ):',
+       '    s.in_ = InPort( T )', '    s.out = OutPort( T )', '    s.cnt = Wire( Bits8 )',
+       f'    s.{cp[0]} = NBundle{tag}( T )', f'    s.{cp[1]} = [ NBundle{tag}( T ) for _ in range(2) ]',
+       f'    s.{cp[2]} = NLeaf{tag}( T )']
+  tl, bl = [], []
+  for B in (f's.{cp[0]}', f's.{cp[1]}[0]', f's.{cp[1]}[1]'):
+    for sub in (bd[0], bd[1]):
+      tl.append(f'{B}.{sub}.{lf[0]}'); bl += [f'{B}.{sub}.{lf[1]}', f'{B}.{sub}.{lf[2]}']
+    bl.append(f'{B}.{bd[2]}')
+  tl.append(f's.{cp[2]}.{lf[0]}'); bl += [f's.{cp[2]}.{lf[1]}', f's.{cp[2]}.{lf[2]}']
+  L += [f'    s.out //= {tl[-1]}', '    @update_ff', '    def up_nifc():', '      s.cnt <<= s.cnt + 1']
+  prev = 's.in_'
+  for t in tl:
+    L.append(f'      {t} <<= {prev}'); prev = t
+  for k, b in enumerate(bl):
+    bit = f's.cnt[{k % 4}]'
+    L.append(f'      {b} <<= {"~" + bit if (k // 4) % 2 else bit}')
+  return '\n'.join(L) + '\n'
+
+def tifc_source(tag, nm):
+  lf, pr = nm['leaf'], nm['pair']
+  L = []
+  for d, port in (('In', 'InPort'), ('Out', 'OutPort')):
+    L += [f'class T{d}Leaf{tag}( Interface ):', '  def construct( s, T ):',
+          f'    s.{lf[0]} = {port}( T )', f'    s.{lf[1]} = {port}( Bits1 )', '',
+          f'class T{d}Pair{tag}( Interface ):', '  def construct( s, T ):',
+          f'    s.{pr[0]} = T{d}Leaf{tag}( T )', f'    s.{pr[1]} = T{d}Leaf{tag}( T )', '']
+  return '\n'.join(L) + '\n'
+
 def stage_ctor(st, tv):
   k = st[0]
   if k in ('Reg', 'PassThru', 'Nested', 'Inv', 'PtSwap', 'PtFields'): return f'{k}( {tv} )'
@@ -260,7 +320,7 @@ def stage_out(st):
 def render(spec, name):
   """spec -> (python source of the design, list of input descriptors (attr, index|None, T))"""
   L = [f'class {name}( Component ):', '  def construct( s ):']
-  inputs = []
+  inputs, classes = [], []
   for j, ch in enumerate(spec['chains']):
     if ch.get('dropped'): continue
     tv = f'T{j}'
@@ -272,13 +332,19 @@ def render(spec, name):
     else:
       src = f's.in{ch["share"]}'
     L.append(f'    s.out{j} = OutPort( {tv} )')
+    ctors = []
+    for i, st in enumerate(ch['stages']):
+      if st[0] == 'NIfc':
+        classes.append(nifc_source(f'_{j}_{i}', st[1])); ctors.append(f'NStage_{j}_{i}( {tv} )')
+      else:
+        ctors.append(stage_ctor(st, tv))
     if ch.get('aslist') and ch['stages']:
-      L.append(f'    s.c{j} = [ ' + ', '.join(stage_ctor(st, tv) for st in ch['stages']) + ' ]')
+      L.append(f'    s.c{j} = [ ' + ', '.join(ctors) + ' ]')
       refs = [f's.c{j}[{i}]' for i in range(len(ch['stages']))]
     else:
       refs = []
       for i, st in enumerate(ch['stages']):
-        L.append(f'    s.c{j}_{i} = {stage_ctor(st, tv)}')
+        L.append(f'    s.c{j}_{i} = {ctors[i]}')
         refs.append(f's.c{j}_{i}')
     for st, r in zip(ch['stages'], refs):
       L.append(f'    {r}.in_ //= {src}')
@@ -313,22 +379,25 @@ def render(spec, name):
       for q in range(n): inputs.append((f'lp{i}', q, ex[1]))
     elif k == 'topifc':
       n = ex[2]
-      L.append(f'    s.ti{i} = [ InPair( {tdecl(ex[1])} ) for _ in range({n}) ]')
-      L.append(f'    s.to{i} = [ Pair( {tdecl(ex[1])} ) for _ in range({n}) ]')
+      nm = ex[3] if len(ex) > 3 else {'leaf': ['msg', 'val'], 'pair': ['req', 'resp']}
+      lf, pr = nm['leaf'], nm['pair']
+      classes.append(tifc_source(f'_x{i}', nm))
+      L.append(f'    s.ti{i} = [ TInPair_x{i}( {tdecl(ex[1])} ) for _ in range({n}) ]')
+      L.append(f'    s.to{i} = [ TOutPair_x{i}( {tdecl(ex[1])} ) for _ in range({n}) ]')
       L.append(f'    for i in range({n}):')
-      L.append(f'      s.to{i}[i].req.msg  //= s.ti{i}[i].req.msg')
-      L.append(f'      s.to{i}[i].resp.msg //= s.ti{i}[i].resp.msg')
-      L.append(f'      s.to{i}[i].req.val  //= s.ti{i}[i].resp.val')
+      L.append(f'      s.to{i}[i].{pr[0]}.{lf[0]} //= s.ti{i}[i].{pr[0]}.{lf[0]}')
+      L.append(f'      s.to{i}[i].{pr[1]}.{lf[0]} //= s.ti{i}[i].{pr[1]}.{lf[0]}')
+      L.append(f'      s.to{i}[i].{pr[0]}.{lf[1]} //= s.ti{i}[i].{pr[1]}.{lf[1]}')
       for q in range(n):
-        inputs.append((f'ti{i}[{q}].req.msg', None, ex[1]))
-        inputs.append((f'ti{i}[{q}].resp.msg', None, ex[1]))
-        inputs.append((f'ti{i}[{q}].resp.val', None, ('b', 1)))
+        inputs.append((f'ti{i}[{q}].{pr[0]}.{lf[0]}', None, ex[1]))
+        inputs.append((f'ti{i}[{q}].{pr[1]}.{lf[0]}', None, ex[1]))
+        inputs.append((f'ti{i}[{q}].{pr[1]}.{lf[1]}', None, ('b', 1)))
     elif k == 'wires':
       L.append(f'    s.ww{i} = [ Wire( {tdecl(ex[1])} ) for _ in range({ex[2]}) ]')
     else:
       raise ValueError(k)
   if len(L) == 2: L.append('    pass')
-  return PRELUDE + '\n' + '\n'.join(L) + '\n', inputs
+  return PRELUDE + '\n' + '\n'.join(classes) + '\n' + '\n'.join(L) + '\n', inputs
 
 # ----------------------------------------------------------------------------- random specs
 def rand_type(rng, allow_struct=True):
@@ -338,7 +407,7 @@ def rand_type(rng, allow_struct=True):
 
 def rand_stage(rng, T):
   w = twidth(T)
-  opts = ['Reg', 'Reg', 'PassThru', 'PassThru', 'Nested', 'Fan', 'IfcStage']
+  opts = ['Reg', 'Reg', 'PassThru', 'PassThru', 'Nested', 'Fan', 'IfcStage', 'NIfc', 'NIfc']
   if T[0] == 'b':
     opts += ['Inv', 'AddK', 'AddK']
     if w >= 2: opts += ['SliceMix']
@@ -346,6 +415,7 @@ def rand_stage(rng, T):
   k = rng.choice(opts)
   if k == 'Fan': return ('Fan', rng.randint(1, 3))
   if k == 'IfcStage': return ('IfcStage', rng.randint(1, 3))
+  if k == 'NIfc': return ('NIfc', rand_ifc_names(rng))
   if k == 'AddK': return ('AddK', rng.randrange(0, 1 << min(w, 16)))
   if k == 'SliceMix':
     h = rng.randint(1, w - 1)
@@ -376,7 +446,8 @@ def rand_spec(rng, big=False):
       T = ('b', rng.choice([1, 1, 2, 4, 65])); extras.append(('topcnt', T, rng.choice([1, 1, (1 << T[1]) - 1, 0])))
     elif k == 'idle': extras.append(('idle', rand_type(rng)))
     elif k == 'listports': extras.append(('listports', rand_type(rng), rng.randint(1, 3)))
-    elif k == 'topifc': extras.append(('topifc', rand_type(rng), rng.randint(1, 2)))
+    elif k == 'topifc':
+      extras.append(('topifc', rand_type(rng), rng.randint(1, 2), {'leaf': draw(rng, LEAF_POOL, 2), 'pair': draw(rng, LEAF_POOL, 2)}))
   return {'chains': chains, 'extras': extras}
 
 def rand_inputs(rng, inputs, ncyc):
@@ -430,6 +501,11 @@ DIRECTED = [
   {'chains': [{'T': ('b', 8), 'stages': [('IfcStage', 2), ('IfcStage', 1), ('Reg',)], 'share': None, 'aslist': True},
               {'T': ('s', 'Pt'), 'stages': [('IfcStage', 3)], 'share': None, 'aslist': False}],
    'extras': [('topifc', ('b', 5), 2), ('topifc', ('s', 'Tagged'), 1)]},
+  # interface attribute names that collide with structural names / manglings (each kind appears, none is a clock)
+  {'chains': [{'T': ('s', 'Pt'), 'stages': [('NIfc', {'leaf': ['msg', 'reset', 'top'], 'bundle': ['a', 'b', 'a_0'], 'comp': ['a__b', 'a', 'a_0']}),
+                                           ('NIfc', {'leaf': ['in_', 'out', 'c0'], 'bundle': ['c0_0', 'in0', 'out0'], 'comp': ['c0_0', 'c0', 'top']})],
+               'share': None, 'aslist': False}],
+   'extras': [('topifc', ('s', 'Nest'), 2, {'leaf': ['a', 'reset'], 'pair': ['a', 'a_0']})]},
   # one input fanned into three chains: one big net across many components
   {'chains': [{'T': ('b', 8), 'stages': [('PassThru',), ('PassThru',)], 'share': None, 'aslist': False},
               {'T': ('b', 8), 'stages': [('Fan', 3), ('PassThru',)], 'share': 0, 'aslist': False},
@@ -520,7 +596,9 @@ def run_design(src, name, inputs, seq, reset, vcd=True, tag='d'):
     return mangle(r[len(h) + 1:])
   res = {'sigs': [('top' + repr(x)[1:], int(x._dsl.Type.nbits)) for x in sigs],
          'where': [(scope_of(x), rel_of(x)) for x in sigs],
-         'field': [x.get_field_name() for x in sigs], 'repr': [repr(x) for x in sigs]}
+         'field': [x.get_field_name() for x in sigs], 'repr': [repr(x) for x in sigs],
+         'is_struct': [not hasattr(x._dsl.Type, 'nbits') or hasattr(x._dsl.Type, '__dataclass_fields__') or
+                       x._dsl.Type.__name__ in STRUCTS for x in sigs]}
   if vcd:
     # the dump function flushes after every cycle; the file object stays open inside the closure
     with open(base + '.vcd') as f: res['vcd_text'] = f.read()
@@ -620,7 +698,9 @@ def analyse(res):
   clk = decl[(('top',), 'clk')][1]
   # the clock itself (s.clk and the clk ports on its net) is synthesised by the dump and checked through clock_wave;
   # any OTHER signal that carries the clock's code is compared like every signal (and will disagree)
-  nonclk = [i for i, c in enumerate(codes) if not (c == clk and res['field'][i] == 'clk')]
+  # (a component's own clock is the signal whose name relative to its host is exactly `clk`; an interface pin that
+  # happens to be called clk is an ordinary signal)
+  nonclk = [i for i, c in enumerate(codes) if not (c == clk and res['where'][i][1] == 'clk')]
   samples = res['samples']
   out.update(names=names, codes=codes, widths=widths, clk=clk, nonclk=nonclk, tokens=tokens)
   # ---- python reference check (description of mismatches only)
@@ -835,9 +915,9 @@ def run(ctx):
   import pymtl3
   rng = ctx.rng
   quick = ctx.tier == 'quick'
-  ndesigns = 120 if quick else 1600
+  ndesigns = 120 if quick else 700
   batch_size = 64 if quick else 100
-  batch, total_cells, tn, trv, lookalike = [], 0, 0, 0, {}
+  batch, total_cells, tn, trv, lookalike, struct_moving = [], 0, 0, 0, {}, [0, 0]
   def flush():
     nonlocal batch
     check_batch(ctx, batch); batch = []
@@ -877,6 +957,13 @@ def run(ctx):
                     {'design_source': src, 'top': name, 'inputs': [list(x) for x in inputs], 'input_sequence': seq,
                      'sim_reset_first': reset, 'mismatches': an['textwave_mismatches'][:6]})
     never, revisit = trace_stats(res['samples'])
+    smp = res['samples']
+    for i, st_ in enumerate(res['is_struct']):
+      if st_ and len(smp) > 1:
+        if any(r[i] != smp[0][i] for r in smp[1:]): struct_moving[0] += 1
+      if res['field'][i] in ('clk', 'reset') and res['where'][i][1] not in ('clk', 'reset') and len(smp) > 1 \
+         and any(r[i] != smp[0][i] for r in smp[1:]):
+        struct_moving[1] += 1
     lookalike_stats(res['samples'], [w for _, w in res['sigs']], lookalike)
     tn += never; trv += revisit
     total_cells += len(res['samples']) * len(res['sigs'])
@@ -893,6 +980,10 @@ def run(ctx):
   flush()
   ctx.extra['signal_cycle_values_compared'] = total_cells
   ctx.extra['lookalike_consecutive_changes'] = lookalike
+  ctx.extra['struct_signals_changing_after_cycle0'] = struct_moving[0]
+  ctx.extra['interface_pins_named_clk_or_reset_that_toggle'] = struct_moving[1]
+  if struct_moving[0] == 0 or struct_moving[1] == 0:
+    ctx.note('generator coverage hole in this run: no moving struct-typed signal or no toggling interface pin named clk/reset')
   ctx.extra['signals_never_changing'] = tn
   ctx.extra['signals_revisiting_an_old_value'] = trv
 
